@@ -10,6 +10,7 @@
 -/
 import Qfx.Lemmas.Framer
 import Qfx.Lemmas.FramerExact
+import Qfx.Lemmas.FramerMem
 open Qfx Qfx.Framer Qfx.Spec
 
 /-- "The sequence of message frames (and the terminal error) extracted from a byte stream depends only on the
@@ -85,6 +86,22 @@ theorem C12_ends_with_error (eofd : Bool) (cs : List Bytes) : ∃ c, (framesChun
   | err c => exact ⟨c, rfl⟩
   | fault w => exact (C12_no_fault eofd cs w h).elim
 
+/-- buffer management at the level of the backing array (`bigBuffer` with its stale bytes, `buffer` = window [lo, lo+len)):
+    `readMore` — shift to the front by memmove, reallocation, read into `buffer[len:cap]` — acts on (window contents,
+    spare capacity, len(bigBuffer)) exactly as `Qfx.Framer.readMore` does on the model state, and keeps the window inside
+    the array; so the model's `buf`/`spare`/`big` are a faithful image of Go's slices. -/
+theorem C12_readMore_refines_array (m : M) (h : m.Inv) :
+    match fillM (growM m) with
+    | .ok (n, e, m') => readMore m.toP = .ok (n, e, m'.toP) ∧ m'.Inv
+    | .err x => readMore m.toP = .err x
+    | .fault w => readMore m.toP = .fault w :=
+  readMoreM_toP m h
+
+/-- … and so does the re-slicing `p.buffer = p.buffer[k:]` (k ≤ len) -/
+theorem C12_slice_refines_array (k : Nat) (m : M) (h : m.Inv) (hk : k ≤ m.len) :
+    (sliceM k m).toP = { m.toP with buf := m.toP.buf.drop k } ∧ (sliceM k m).Inv :=
+  sliceM_toP k m h hk
+
 /-! non-vacuity: a Heartbeat is a well-formed frame; junk ending in '8' is a legal separator; two reads that cut
     the message inside "9=" give that message -/
 example : wfFrame (asciiOf "8=FIX.4.2\x019=5\x0135=0\x0110=161\x01") = true := by decide
@@ -117,6 +134,8 @@ theorem C12_orig_negative_offset_faults (off : Int) (h : off < 0) (d : Bytes) (p
   * C09 (framer part) "no panic / no hang"
         C12_no_fault, C12_ends_with_error; termination: `findIdx`, `runG`, `framesWholeG` are total functions
         accepted by Lean's termination checker (well-founded on unread chunks / buffered+unread bytes)
+  * model fidelity (buffer window inside bigBuffer, copy-to-front, growth): C12_readMore_refines_array,
+    C12_slice_refines_array — the model's buffer primitives are images of the array-level operations
   * the tree before the fix: C12_chunk_independent_orig (still chunk independent), C12_orig_overflow_witness +
     C12_orig_negative_offset_faults (why it panicked)
 -/
